@@ -393,7 +393,7 @@ func genC07Laws(r *rng, n int, w *bufio.Writer) {
 		ns = 200000
 	}
 	for i := 0; i < ns/10+1; i++ {
-		k := 1 + r.n(7)
+		k := nCount(r, 1+r.n(7), 10, 8, 600) // candidates: 1..7 mostly, 1 list in 10 log-scale up to 600
 		cand := make([]c07Rule, k)
 		for j := range cand {
 			cand[j] = pick(r, all)
